@@ -1,0 +1,13 @@
+//go:build verif && (verif_all || verif_c12)
+// +build verif
+// +build verif_all verif_c12
+
+package gocql
+
+// Verification hooks (build tag `verif`) for property C12, round 7 (ownership of Marshal results on the
+// way through Conn.executeQuery / Conn.executeBatch): the harness runs a real Session against an
+// in-memory scripted peer. Add-only thin wrapper.
+
+// VerifC12DisableControlConn sets the internal testing switch that makes a Session use only the
+// configured hosts (no control connection, no system table queries).
+func VerifC12DisableControlConn(cfg *ClusterConfig) { cfg.disableControlConn = true }
